@@ -1,9 +1,9 @@
 package sim
 
 import (
-	"os"
 	"bytes"
 	"fmt"
+	"os"
 	"regexp"
 	"strconv"
 	"strings"
@@ -44,9 +44,9 @@ type mediaObj struct {
 	tsTracks []string
 	patFirst bool
 	decErr   error
-	num      int // number embedded in the URI (segment: msn; part: part number)
-	msn      int // segments: media sequence number when first listed
-	goneAt   int // call index at which it was seen to have left the window (-1 = still listed)
+	num      int      // number embedded in the URI (segment: msn; part: part number)
+	msn      int      // segments: media sequence number when first listed
+	goneAt   int      // call index at which it was seen to have left the window (-1 = still listed)
 	inits    [][]byte // init objects: every distinct body seen, in order
 	initAt   []int    // call index at which each distinct body was first seen
 }
@@ -72,19 +72,19 @@ type problem struct {
 }
 
 type muxObs struct {
-	w            *muxWorld
-	indexReq     *httpResp
-	contentSeen  bool
-	contentAt    int
-	multi        []*multiSnap
-	streams      []*streamObs
-	objects      map[string]*mediaObj
-	order        []*mediaObj // in first-listed order
-	problems     []problem
-	refetchAll   bool
-	changeCtr    int
-	fetches      int
-	query        string // query string appended to playlist requests ("" or "k=v")
+	w           *muxWorld
+	indexReq    *httpResp
+	contentSeen bool
+	contentAt   int
+	multi       []*multiSnap
+	streams     []*streamObs
+	objects     map[string]*mediaObj
+	order       []*mediaObj // in first-listed order
+	problems    []problem
+	refetchAll  bool
+	changeCtr   int
+	fetches     int
+	query       string // query string appended to playlist requests ("" or "k=v")
 }
 
 func newMuxObs(w *muxWorld) *muxObs {
@@ -340,4 +340,3 @@ func decodeInit(b []byte) (*fmp4.Init, error) {
 	}
 	return &in, nil
 }
-
